@@ -121,9 +121,35 @@ _OPERATOR_FUNCS = {"operator.add": ast.Add, "operator.sub": ast.Sub, "operator.m
 _OPERATOR_CMP = {"operator.eq": ast.Eq, "operator.ne": ast.NotEq, "operator.lt": ast.Lt, "operator.le": ast.LtE, "operator.gt": ast.Gt, "operator.ge": ast.GtE,
                  "operator.is_": ast.Is, "operator.is_not": ast.IsNot, "operator.contains": None}
 _OPERATOR_CMP.pop("operator.contains")
-_STD_MODULES = ("itertools", "functools", "operator", "math", "copy")
+_STD_MODULES = ("itertools", "functools", "operator", "math", "copy", "collections")
 _NOTHANDLED = object()
 _BUILTIN_CALLABLES = ("map", "filter", "zip", "enumerate", "sorted", "reversed", "sum", "min", "max", "abs", "any", "all", "range", "set", "callable", "divmod", "print", "getattr", "hasattr")
+
+
+class NamedTup(tuple):
+    """an instance of a collections.namedtuple class: a tuple whose items also answer to the field names"""
+    _abs_native = True
+    _abs_absent = ()
+
+    def __new__(cls, typename, fields, values):
+        self = tuple.__new__(cls, values)
+        self._typename, self._fields = typename, tuple(fields)
+        return self
+
+    def __getattr__(self, name):
+        fields = tuple.__getattribute__(self, "__dict__").get("_fields", ())
+        if name in fields:
+            return self[fields.index(name)]
+        raise AttributeError(name)
+
+    def _replace(self, **kw):
+        return NamedTup(self._typename, self._fields, [kw.get(f, v) for f, v in zip(self._fields, self)])
+
+    def _asdict(self):
+        return dict(zip(self._fields, self))
+
+    def __repr__(self):
+        return "%s(%s)" % (self._typename, ", ".join("%s=%r" % fv for fv in zip(self._fields, self)))
 
 
 class OneShot(list):
@@ -938,7 +964,7 @@ class Abs:
             args[0].attrs[args[1]] = args[2]
             return None
         if dn == "callable":
-            return isinstance(args[0], tuple) and bool(args[0]) and isinstance(args[0][0], str) and args[0][0] in ("callable", "lambda", "bound", "sampler", "py", "func", "imeth", "closure", "method", "boundclosure")
+            return isinstance(args[0], tuple) and bool(args[0]) and isinstance(args[0][0], str) and args[0][0] in ("callable", "lambda", "bound", "sampler", "py", "func", "imeth", "closure", "method", "boundclosure", "partial", "ntclass")
         if dn == "print" or (dn is not None and (dn.startswith("logging.") or dn in ("warnings.warn", "logger.debug", "logger.info", "logger.warning"))):
             return None
         if dn in ("int", "float"):
@@ -994,6 +1020,20 @@ class Abs:
             for x in self._iter(args[0]):
                 tot = self.binop(ast.Add(), tot, x)
             return tot
+        if dn == "collections.namedtuple" and len(args) >= 2 and isinstance(args[0], str):
+            fields = args[1].replace(",", " ").split() if isinstance(args[1], str) else list(self._iter(args[1]))
+            if kw and set(kw) - {"defaults"}:
+                raise Undecided("namedtuple with %s" % sorted(kw))
+            defaults = list(self._iter(kw["defaults"])) if kw.get("defaults") is not None else []
+            return ("ntclass", args[0], tuple(fields), tuple(defaults))
+        if dn in ("collections.OrderedDict",) and len(args) <= 1:
+            if not args:
+                return dict(kw)
+            return {self._key(k): v for k, v in (args[0].items() if isinstance(args[0], dict) else self._iter(args[0]))}
+        if dn == "collections.defaultdict":
+            raise Undecided("collections.defaultdict")
+        if dn == "collections.deque" and len(args) <= 1 and not kw:
+            return list(self._iter(args[0])) if args else []
         if dn == "dict.fromkeys" and len(args) in (1, 2) and "dict" not in self.env:
             return {self._key(k): (args[1] if len(args) == 2 else None) for k in self._iter(args[0])}
         if dn in ("functools.partial",):
@@ -1084,6 +1124,22 @@ class Abs:
                 if r is not _NOTHANDLED:
                     return r
                 raise Undecided("no summary for %s" % f[1])
+            if tag == "ntclass":
+                _, typename, fields, defaults = f
+                vals = list(args)
+                if len(vals) > len(fields):
+                    raise Raised("TypeError(%s() takes %d positional arguments but %d were given)" % (typename, len(fields), len(vals)))
+                for i, fld in enumerate(fields[len(vals):], start=len(vals)):
+                    if fld in kw:
+                        vals.append(kw[fld])
+                    elif i >= len(fields) - len(defaults):
+                        vals.append(defaults[i - (len(fields) - len(defaults))])
+                    else:
+                        raise Raised("TypeError(%s() missing required argument %s)" % (typename, fld))
+                extra = set(kw) - set(fields)
+                if extra:
+                    raise Raised("TypeError(%s() got an unexpected keyword argument %s)" % (typename, sorted(extra)[0]))
+                return NamedTup(typename, fields, vals)
             if tag == "partial":
                 kw2 = dict(f[3])
                 kw2.update(kw)
